@@ -9,7 +9,7 @@ def run(ctx):
     n, nsteps = (40, 8) if quick else (500, 16)
     cases = []
     for t in range(n):
-        steps, marks = scen.rand_history(ctx.rng, nsteps)
+        steps, marks = scen.rand_history(ctx.rng, nsteps, faults=True)
         cases.append({"id": f"h{t}", "steps": steps, "marks": marks})
     ctx.cov["rule"] = ("random histories (backups with random option triples incl. 1-entry hunks and 1-byte blocks, backups killed at a random "
                        "operation incl. the empty-file state, deletes, gc): after EVERY mutating operation an independent reader of the 0.6 "
@@ -17,6 +17,20 @@ def run(ctx):
                        "strictly increasing paths within and across hunks, tail states the true hunk count, blocks named by and filed under the "
                        "BLAKE2b of their content, addresses inside their blocks, only files carry addresses summing to... , only symlinks carry a "
                        "target. + exact L4 correspondence. non-trivial = distinct history")
+    # a systematic family: identical contents that become separate blocks x EVERY single failing operation
+    for t in range(1 if quick else 10):
+        tree = scen.small_tree(ctx.rng)
+        dup = gen.rand_bytes(ctx.rng, 5)
+        for k in range(3):
+            tree["c"][f"dup{k}"] = {"k": "f", "data": dup.hex(), "mode": 0o600, "mtime": 10**18 + k}
+        opts = {"meph": ctx.rng.choice([2, 3, 100000]), "mbs": 8, "sfc": ctx.rng.choice([0, 1])}
+        for k in range(8, 60 if quick else 90):
+            steps = [{"op": "init"}, {"op": "mktree", "path": "src", "tree": tree}, {"op": "snap", "path": "src"}, {"op": "walk"},
+                     {"op": "backup", "opts": opts, "plan": {"faults": [[k, ctx.rng.choice(["NotFound", "AlreadyExists", "PermissionDenied", "Other"])]]}},
+                     {"op": "arch"}]
+            marks = [{"kind": "init"}, {"kind": "mktree", "tree": tree}, {"kind": "snap"}, {"kind": "walk"},
+                     {"kind": "backup", "plan": steps[4]["plan"], "tree": tree, "snap_at": 2}, {"kind": "arch"}]
+            cases.append({"id": f"f{t}_{k}", "steps": steps, "marks": marks})
     res = ctx.cvh_run(cases, timeout=3000)
     hs = []
     for c in cases:
